@@ -16,12 +16,18 @@ package dns
 //@ extern strings.ToLower
 //@   pure
 
+// "inside the zone": the zone (the owner name without its first label) is the parent argument of IsSubDomain,
+// the queried name (upper-cased like the owner) the child
 //@ func (*NSEC3).Cover [C17]
+//@   callsite "IsSubDomain" zone: same(arg0, ownerZone) && arg1 == callres("ToUpper")
+//@   assert at "if !IsSubDomain(ownerZone" split: ownerZone == owner[labelIndices[1]:] && ownerHash == owner[:labelIndices[1]-1]
 //@   exit zone:     ret0 ==> callres("IsSubDomain")
 //@   exit strict:   ret0 ==> nameHash != ownerHash
 //@   exit interval: callres("IsSubDomain") ==> ret0 == ((ownerHash == nextHash) ? (nameHash != ownerHash) : (strlt(nextHash, ownerHash) ? (strlt(ownerHash, nameHash) || strlt(nameHash, nextHash)) : (strlt(ownerHash, nameHash) && strlt(nameHash, nextHash))))
 
 //@ func (*NSEC3).Match [C17]
+//@   callsite "IsSubDomain" zone: same(arg0, ownerZone) && arg1 == callres("ToUpper")
+//@   assert at "if !IsSubDomain(ownerZone" split: ownerZone == owner[labelIndices[1]:] && ownerHash == owner[:labelIndices[1]-1]
 //@   exit match: ret0 == (callres("IsSubDomain") && ownerHash == nameHash)
 
 // ---- key tag (RFC 4034 Appendix B) -----------------------------------------------------------------------------
